@@ -72,6 +72,8 @@ impl Iso {
             bytes = if let Some(h) = act["bytes"].as_str() { vh_common::unhex(h) } else { self.w.dg_bytes(&act["d"]) };
             act["bytes"] = json!(vh_common::hex(&bytes));
         }
+        // abstract form of an incoming datagram, for the strict trace specification NetTrace
+        let (d_abs, d_clean) = if a == "feed" { self.w.proj_in(addr_of(act["addr"].as_str().unwrap()), &bytes) } else { (Value::Null, true) };
         let o = self.w.apply(&act);
         let now = self.w.now_us;
         let raw_sends: Vec<(u8, Vec<u8>)> = Vec::new();
@@ -224,12 +226,21 @@ impl Iso {
             ns.entry(addr_name(addr)).or_default().push(vh_common::hex(&b));
         }
         let newm: Vec<String> = std::mem::take(&mut self.w.malformed);
-        json!({"a": a, "act": act, "res": if o.res.starts_with("panic") { "panic".to_string() } else { o.res.clone() }, "detail": o.res,
+        let mut tout = json!({"res": if o.res.starts_with("panic") { "panic".to_string() } else { o.res.clone() }, "evs": o.evs, "sends": o.sends});
+        if let Some(p) = o.pid {
+            tout["pid"] = json!(p);
+        }
+        let mut rec = json!({"a": a, "act": act, "res": if o.res.starts_with("panic") { "panic".to_string() } else { o.res.clone() }, "detail": o.res,
+               "clean": d_clean && newm.is_empty(), "out": tout, "st": self.w.proj(),
                "evs": o.evs, "sends": ns, "nt": self.w.needs_tick_ms(), "malformed": newm,
                "kind": kind, "accepting": self.accepting,
                "pre": pre_peers.iter().map(|p| json!({"pid": p.0, "addr": addr_name(p.1)})).collect::<Vec<_>>(),
                "post": post_peers.iter().map(|p| json!({"pid": p.0, "addr": addr_name(p.1)})).collect::<Vec<_>>(),
-               "sh": {"res": if sh_res.starts_with("panic") { "panic".to_string() } else { sh_res }, "evs": sh_evs, "sends": ss, "nt": ms(now, sh_nt)}})
+               "sh": {"res": if sh_res.starts_with("panic") { "panic".to_string() } else { sh_res }, "evs": sh_evs, "sends": ss, "nt": ms(now, sh_nt)}});
+        if a == "feed" {
+            rec["d"] = d_abs;
+        }
+        rec
     }
 }
 
